@@ -53,10 +53,11 @@ def real_records(ctx):
         combos.append((small[(wi + 1) % len(small)], grids[0], w))
     for x in ins:
         combos.append((x, grids[0], wins[0]))
-        g = rng.choice(grids)
-        if len(x[1]) > 60000 and float(g[2]) < 0.05:
-            g = grids[1]
-        combos.append((x, g, rng.choice(wins)))
+        for _ in range(5 if ctx.thorough() else 1):
+            g = rng.choice(grids)
+            if len(x[1]) > 60000 and float(g[2]) < 0.05:
+                g = grids[1]
+            combos.append((x, g, rng.choice(wins)))
     for (name, text), g, w in combos:
         r = runner.run(text, ["-q", "-g", *g, "-w", *w])
         ctx.count()
